@@ -290,9 +290,10 @@ func (x *xlator) observation(ii *ifaceInfo, m *types.Func) *obsField {
 	return of
 }
 
-func (x *xlator) ifaceDecls() string {
-	var b strings.Builder
+func (x *xlator) ifaceDecls() []*block {
+	var res []*block
 	for _, ii := range x.ifaceOrder {
+		var b strings.Builder
 		fmt.Fprintf(&b, "/-- Go: interface `%s.%s`, abstracted: what the translated functions observe of a value of\nthis type — `dyn` is its dynamic type, every other field is the result of the method of that\nname (a method taking a byte slice: the slice after the call, then the results) -/\n",
 			ii.named.Obj().Pkg().Name(), ii.named.Obj().Name())
 		fmt.Fprintf(&b, "structure %s where\n  dyn : String\n", ii.lean)
@@ -300,8 +301,9 @@ func (x *xlator) ifaceDecls() string {
 			fmt.Fprintf(&b, "  %s : %s\n", of.lean, of.leanT)
 		}
 		b.WriteString("deriving Inhabited\n\n")
+		res = append(res, &block{kind: "iface", name: ii.named.Obj().Pkg().Name() + "." + ii.named.Obj().Name(), text: b.String()})
 	}
-	return b.String()
+	return res
 }
 
 func (x *xlator) pkgPrefix(p *types.Package) string {
@@ -359,7 +361,7 @@ func (x *xlator) structOf(t types.Type) *structInfo {
 	fmt.Fprintf(&b, "def %s.zero : %s := ⟨%s⟩\n\n", si.lean, si.lean, strings.Join(zs, ", "))
 	fmt.Fprintf(&b, "instance : Inhabited %s := ⟨%s.zero⟩\n\n", si.lean, si.lean)
 	x.structs[n] = si
-	x.emit(b.String())
+	x.emit("type", n.Obj().Pkg().Name()+"."+n.Obj().Name(), b.String(), "")
 	return si
 }
 
